@@ -1,64 +1,50 @@
-/* Contracts for PressureAbove::run (property C08: pressure_above)
- *
- * Top-level postcondition (from docs/core_plugins.md + the property text):
- *   watched = pressure of the cgroup under the most pressure (weight 3*avg10+2*avg60+avg300,
- *             missing pressure counts as zero, first maximum in enumeration order)
- *   run start  r' = (watched.sec_10 > threshold) ? (r if a run is open else now) : none
- *   CONTINUE  <=> watched.sec_10 > threshold  &&  floor_sec(now - r') >= duration
- * History meta-argument: r' is the time of the first sample of the current maximal run of
- * consecutive exceeding samples (induction over ticks on the recurrence above; base case =
- * field initialiser hit_thres_at_{} = "no run open", checked in h_PressureAbove_init).
+/* Contracts for PressureRisingBeyond::run (C08: pressure_rising_beyond)
+ *   watched = most pressured cgroup (as pressure_above)
+ *   run start r' = (watched.sec_60 > threshold) ? (r if open else now) : none
+ *   CONTINUE <=> watched.sec_60 > threshold && floor_sec(now - r') >= duration
+ *                && watched.sec_10 > threshold && !(watched.sec_10 < previous_tick.sec_10 * fast_fall_ratio)
  */
 #include "pressure_common.h"
+#define PRB_BEST(s) ((s)->resource_ == ResourceType__IO ? g_best_io : g_best_mem)
+#define PRB_ABOVE60(s) (PRB_BEST(s).sec_60 > (float)(s)->threshold_)
 
-/* ---- contract under proof ---- */
-#define PA_VALID_RES(s) ((s)->resource_ == ResourceType__MEMORY || (s)->resource_ == ResourceType__IO)
-#define PA_BEST(s) ((s)->resource_ == ResourceType__IO ? g_best_io : g_best_mem)
-#define PA_ABOVE(s) (PA_BEST(s).sec_10 > (float)(s)->threshold_)
-
-PluginRet PressureAbove__run(PressureAbove *self, OomdContext ctx)
-  __CPROVER_requires(__CPROVER_is_fresh(self, sizeof(*self)))
-  __CPROVER_requires(PA_VALID_RES(self) && ghost_exc == 0)
-  /* Inv8: hit_thres_at_ is epoch (no run open) or a past clock reading */
+PluginRet PressureRisingBeyond__run(PressureRisingBeyond *self, OomdContext ctx)
+  __CPROVER_requires(__CPROVER_is_fresh(self, sizeof(*self)) && ghost_exc == 0)
+  __CPROVER_requires(self->resource_ == ResourceType__MEMORY || self->resource_ == ResourceType__IO)
   __CPROVER_requires(TP_VALID(g_last_now) && TP_VALID(self->hit_thres_at_) && TP_LE(self->hit_thres_at_, g_last_now))
   __CPROVER_requires(RP_ZERO(g_best_mem) && RP_ZERO(g_best_io) && g_calls_mem == 0 && g_calls_io == 0 && g_elems == 0)
   __CPROVER_assigns(self->last_pressure_, self->hit_thres_at_, g_last_now, g_best_mem, g_best_io,
                     g_calls_mem, g_calls_io, g_calls_usage, g_elems, g_cur_elem, g_vec_n)
-  /* every matched cgroup sampled exactly once, for the configured resource only */
   __CPROVER_ensures(g_elems == g_vec_n)
   __CPROVER_ensures(self->resource_ == ResourceType__IO ? (g_calls_io == g_vec_n && g_calls_mem == 0)
                                                         : (g_calls_mem == g_vec_n && g_calls_io == 0))
-  /* run-start recurrence */
-  __CPROVER_ensures(PA_ABOVE(self)
+  __CPROVER_ensures(PRB_ABOVE60(self)
       ? (TP_IS_EPOCH(__CPROVER_old(self->hit_thres_at_)) ? TP_EQ(self->hit_thres_at_, g_last_now)
                                                         : TP_EQ(self->hit_thres_at_, __CPROVER_old(self->hit_thres_at_)))
       : TP_IS_EPOCH(self->hit_thres_at_))
-  /* decision */
   __CPROVER_ensures((__CPROVER_return_value == PluginRet__CONTINUE) ==
-      (PA_ABOVE(self) && SEC_DIFF(g_last_now, self->hit_thres_at_) >= (int64_t)self->duration_))
+      (PRB_ABOVE60(self) && SEC_DIFF(g_last_now, self->hit_thres_at_) >= (int64_t)self->duration_ &&
+       PRB_BEST(self).sec_10 > (float)self->threshold_ &&
+       !(PRB_BEST(self).sec_10 < F_MUL_f(__CPROVER_old(self->last_pressure_.sec_10), self->fast_fall_ratio_))))
   __CPROVER_ensures(__CPROVER_return_value == PluginRet__CONTINUE || __CPROVER_return_value == PluginRet__STOP)
-  /* sliding state + Inv8 preserved */
-  __CPROVER_ensures(RP_EQ(self->last_pressure_, PA_BEST(self)))
+  __CPROVER_ensures(RP_EQ(self->last_pressure_, PRB_BEST(self)))
   __CPROVER_ensures(TP_VALID(self->hit_thres_at_) && TP_LE(self->hit_thres_at_, g_last_now))
   __CPROVER_ensures(ghost_exc == 0);
 
-#define LOOPC_PressureAbove__run_1 \
+#define LOOPC_PressureRisingBeyond__run_1 \
   __CPROVER_assigns(__begin1, current_pressure, current_memory_usage, g_best_mem, g_best_io, \
                     g_calls_mem, g_calls_io, g_calls_usage, g_elems, g_cur_elem) \
   __CPROVER_loop_invariant(__begin1.i <= __begin1.n && __begin1.n == __end1.i && __begin1.n == g_vec_n) \
   __CPROVER_loop_invariant(g_elems == __begin1.i) \
   __CPROVER_loop_invariant(self->resource_ == ResourceType__IO \
       ? (g_calls_io == __begin1.i && g_calls_mem == 0) : (g_calls_mem == __begin1.i && g_calls_io == 0)) \
-  __CPROVER_loop_invariant(RP_EQ(current_pressure, PA_BEST(self))) \
+  __CPROVER_loop_invariant(RP_EQ(current_pressure, PRB_BEST(self))) \
   __CPROVER_decreases(__begin1.n - __begin1.i)
 
-/* ---- harnesses ---- */
-PluginRet PressureAbove__run(PressureAbove *self, OomdContext ctx);
-void h_PressureAbove__run(void)
+void h_PressureRisingBeyond__run(void)
 {
-  PressureAbove *self;
-  OomdContext ctx;
+  PressureRisingBeyond *self; OomdContext ctx;
   HAVOC(g_last_now); HAVOC(g_best_mem); HAVOC(g_best_io); HAVOC(g_calls_mem); HAVOC(g_calls_io); HAVOC(g_elems); HAVOC(ghost_exc);
-  PressureAbove__run(self, ctx);
+  PressureRisingBeyond__run(self, ctx);
   __CPROVER_assert(0, "canary: contract precondition satisfiable and function exit reachable");
 }
